@@ -853,7 +853,7 @@ func checkConnHandOverRendezvous(c *Ctx, funcs []*ssa.Function) {
 		key := "conn-hand-over@" + funcName(fn)
 		good := true
 		why := ""
-		for _, r := range tr.origins(ch) {
+		for _, r := range tr.originsNH(ch) {
 			mk, ok := r.(*ssa.MakeChan)
 			if !ok {
 				good, why = false, "the channel's make site is not visible ("+exprStr(r)+")"
